@@ -1,4 +1,7 @@
-(** * C10: a panicking operation returns the world it was given, and emits no event. *)
+(** * C10: a panicking operation emits no event and returns the world it was given - up to
+      the empty graph nodes (and empty table) an unfinished [findOrCreateArchetype] leaves
+      behind in the creation and exchange operations ([ghost_of], characterised in
+      Proofs/Ghost.v: no entity, value, handle, lock or selection changes). *)
 From Arche Require Import Model.Base Model.Pool Model.Filter Model.World Model.Ops.
 
 Ltac break_match :=
@@ -46,8 +49,8 @@ Qed.
 Lemma op_exchange_panic w e add rem rel cs w' evs : op_exchange w e add rem rel cs = (w', Panic, evs) -> w' = w /\ evs = [].
 Proof. unfold op_exchange. destruct (exchange_nn w e add rem rel) as [[w1 [x|]]|]; try done. by intros [= <- <-]. Qed.
 
-(** Every [Panic] outcome of [step] comes with the unchanged world and no event. *)
-Theorem panic_atomic w o w' evs : step w o = (w', Panic, evs) -> w' = w /\ evs = [].
+(** Every [Panic] outcome of the operation proper comes with the unchanged world and no event. *)
+Theorem panic_atomic0 w o w' evs : step0 w o = (w', Panic, evs) -> w' = w /\ evs = [].
 Proof.
   destruct o; simpl.
   - apply op_new_panic.
@@ -112,8 +115,79 @@ Proof.
   - done.
 Qed.
 
+(** [step] is [step0] unless [step0] panics; then the world is [ghost_of]. *)
+Lemma with_ghost_same w r : (forall w' evs, r = (w', Panic, evs) -> w' = w) -> with_ghost w r = r.
+Proof. intros H. destruct r as [[w' []] evs]; try done. simpl. by rewrite (H w' evs eq_refl). Qed.
+Lemma step_eq w o : step w o = with_ghost (ghost_of w o) (step0 w o).
+Proof.
+  destruct o; try reflexivity;
+    match goal with |- step w ?o = _ =>
+      change (step0 w o = with_ghost w (step0 w o)); symmetry; apply with_ghost_same;
+      intros w' evs H; exact (proj1 (panic_atomic0 w o w' evs H))
+    end.
+Qed.
+Lemma step_cases w o :
+  (step w o = step0 w o /\ snd (fst (step0 w o)) <> Panic) \/
+  (step0 w o = (w, Panic, []) /\ step w o = (ghost_of w o, Panic, [])).
+Proof.
+  rewrite step_eq. unfold with_ghost. destruct (step0 w o) as [[w' out] evs] eqn:H. destruct out; try (left; by split).
+  right. by destruct (panic_atomic0 w o w' evs H) as [-> ->].
+Qed.
+
+Lemma step_out_eq w o : snd (fst (step w o)) = snd (fst (step0 w o)).
+Proof. rewrite step_eq. unfold with_ghost. by destruct (step0 w o) as [[w' []] evs]. Qed.
+Lemma step_events w o : snd (step w o) = snd (step0 w o).
+Proof. rewrite step_eq. unfold with_ghost. by destruct (step0 w o) as [[w' []] evs]. Qed.
+Lemma step_not_panic w o : snd (fst (step0 w o)) <> Panic -> step w o = step0 w o.
+Proof. rewrite step_eq. unfold with_ghost. by destruct (step0 w o) as [[w' []] evs]. Qed.
+Lemma step_ok w o w' v evs : step w o = (w', Ok v, evs) <-> step0 w o = (w', Ok v, evs).
+Proof. rewrite step_eq. unfold with_ghost. destruct (step0 w o) as [[w1 []] evs1]; split; intros H; try done. Qed.
+Lemma step_panic0 w o : step0 w o = (w, Panic, []) -> step w o = (ghost_of w o, Panic, []).
+Proof. rewrite step_eq. unfold with_ghost. by intros ->. Qed.
+
+(** Every [Panic] outcome of [step] comes with no event and with the world [ghost_of w o]:
+    [w] itself for every operation except the creation and exchange operations that panic
+    inside or after [findOrCreateArchetype]. *)
+Theorem panic_atomic w o w' evs : step w o = (w', Panic, evs) -> w' = ghost_of w o /\ evs = [].
+Proof.
+  destruct (step_cases w o) as [[Heq Hnp]|[H0 ->]]; [|by intros [= <- <-]].
+  rewrite Heq. intros H. rewrite H in Hnp. done.
+Qed.
+
+Definition ghost_op (o : op) : bool :=
+  match o with
+  | ONew _ | ONewWith _ | OBNew _ _ | OBBatch _ _ _ | OBBatchQ _ _ _ | OBAdd _ _ _
+  | OExchange _ _ _ | OAssign _ _ | ORelExchange _ _ _ _ _ => true
+  | _ => false
+  end.
+Lemma ghost_of_other w o : ghost_op o = false -> ghost_of w o = w.
+Proof. by destruct o. Qed.
+Lemma step_other w o : ghost_op o = false -> step w o = step0 w o.
+Proof.
+  intros Hg. by destruct o.
+Qed.
+Lemma ghost_of_locked w o : is_locked w = true -> ghost_of w o = w.
+Proof.
+  intros HL. destruct o; try done; simpl.
+  - unfold ghost_new. by rewrite HL.
+  - unfold ghost_new. by rewrite HL.
+  - unfold ghost_builder_new, ghost_new_target, ghost_new. rewrite HL. by destruct target, (b_rel b).
+  - unfold ghost_new_batch. rewrite HL. by destruct target, (b_rel b).
+  - unfold ghost_new_batch. rewrite HL. by destruct target, (b_rel b).
+  - unfold ghost_builder_add, ghost_assign, exchange_ghost. rewrite HL. destruct target, (b_rel b), (b_vals b); try done; by destruct (b_comps b).
+  - unfold exchange_ghost. by rewrite HL.
+  - unfold ghost_assign, exchange_ghost. rewrite HL. by destruct cs.
+  - unfold exchange_ghost. by rewrite HL.
+Qed.
+Corollary panic_atomic_other w o w' evs : ghost_op o = false -> step w o = (w', Panic, evs) -> w' = w /\ evs = [].
+Proof. intros Hg H. destruct (panic_atomic w o w' evs H) as [-> ->]. by rewrite ghost_of_other. Qed.
+
+Lemma step_panic_same w o : step0 w o = (w, Panic, []) -> ghost_of w o = w -> step w o = (w, Panic, []).
+Proof. intros H G. rewrite (step_panic0 w o H). by rewrite G. Qed.
+
 (** The documented illegal-argument classes panic (here: the single-entity ones that
-    need no storage invariant). *)
+    need no storage invariant); these panics come before any graph walk: the world is
+    returned as it was. *)
 Theorem illegal_dead_entity w e :
   chk_alive w e <> Some true ->
   (forall add rem, step w (OExchange e add rem) = (w, Panic, [])) /\
@@ -121,8 +195,9 @@ Theorem illegal_dead_entity w e :
   (forall id v, step w (OSet e id v) = (w, Panic, [])) /\ (forall id t, step w (ORelSet e id t) = (w, Panic, [])) /\
   step w (OMask e) = (w, Panic, []).
 Proof.
-  intros Hd. repeat split; intros; simpl.
+  intros Hd. repeat split; intros; apply step_panic_same; try reflexivity; simpl.
   - unfold op_exchange, exchange_nn. destruct (is_locked w); [done|]. by destruct (chk_alive w e) as [[]|].
+  - unfold exchange_ghost. destruct (is_locked w); [done|]. by destruct (chk_alive w e) as [[]|].
   - unfold op_remove_entity, ent_table. destruct (is_locked w); [done|]. by destruct (chk_alive w e) as [[]|].
   - unfold get_comp. by destruct (chk_alive w e) as [[]|].
   - unfold set_comp. by destruct (chk_alive w e) as [[]|].
@@ -137,10 +212,12 @@ Theorem illegal_dead_target w e rid t :
   (forall b, b_rel b <> None -> step w (OBNew b (Some t)) = (w, Panic, [])) /\
   (forall a q, step w (OBatchSetRel q a rid t) = (w, Panic, [])).
 Proof.
-  intros Ht. repeat split; intros; simpl.
+  intros Ht. repeat split; intros; apply step_panic_same; try reflexivity; simpl.
   - unfold op_set_relation. destruct (is_locked w); [done|]. destruct (chk_alive w e) as [[]|]; try done. by rewrite Ht.
   - unfold op_exchange, exchange_nn. destruct (is_locked w); [done|]. destruct (chk_alive w e) as [[]|]; try done. by rewrite Ht.
+  - unfold exchange_ghost. destruct (is_locked w); [done|]. destruct (chk_alive w e) as [[]|]; try done. by rewrite Ht.
   - unfold op_builder_new. destruct (b_rel b); [|done]. unfold op_new_target. destruct (is_locked w); [done|]. by rewrite Ht.
+  - unfold ghost_builder_new. destruct (b_rel b); [|done]. unfold ghost_new_target. destruct (is_locked w); [done|]. by rewrite Ht.
   - destruct q; unfold op_batch_set_relation_q, op_batch_set_relation, set_relation_batch_nn;
       (destruct (is_locked w); [done|]); by rewrite Ht.
 Qed.
@@ -152,10 +229,17 @@ Theorem illegal_component_args w e add rem :
   (forall tid row t nd, ent_table w e = Some (tid, row, t, nd) -> exchange_mask (n_mask nd) add rem = None) ->
   step w (OExchange e add rem) = (w, Panic, []).
 Proof.
-  intros HL Hne Hbad. simpl. unfold op_exchange, exchange_nn, ent_table in *. rewrite HL.
-  destruct (chk_alive w e) as [[]|]; try done. simpl.
-  destruct add as [|a add']; [destruct rem as [|r rem']; [destruct Hne; done|]|];
-    (destruct (loc w e) as [[tid row]|]; [|done]);
-    (destruct (w_tables w !! tid) as [t|]; [|done]); (destruct (w_nodes w !! t_node t) as [nd|]; [|done]);
-    by rewrite (Hbad tid row t nd eq_refl).
+  intros HL Hne Hbad. apply step_panic_same; simpl.
+  - unfold op_exchange, exchange_nn, ent_table in *. rewrite HL.
+    destruct (chk_alive w e) as [[]|]; try done. simpl.
+    destruct add as [|a add']; [destruct rem as [|r rem']; [destruct Hne; done|]|];
+      (destruct (loc w e) as [[tid row]|]; [|done]);
+      (destruct (w_tables w !! tid) as [t|]; [|done]); (destruct (w_nodes w !! t_node t) as [nd|]; [|done]);
+      by rewrite (Hbad tid row t nd eq_refl).
+  - unfold exchange_ghost, ent_table in *. rewrite HL.
+    destruct (chk_alive w e) as [[]|]; try done. simpl.
+    destruct add as [|a add']; [destruct rem as [|r rem']; [done|]|];
+      (destruct (loc w e) as [[tid row]|]; [|done]);
+      (destruct (w_tables w !! tid) as [t|]; [|done]); (destruct (w_nodes w !! t_node t) as [nd|]; [|done]);
+      by rewrite (Hbad tid row t nd eq_refl).
 Qed.
